@@ -175,6 +175,27 @@ def run(chk):
                     ns_l = coeffs_in(T.lift(An2[0, 0]), "L", 3)
                     chk.eq(f"C29.rg.order2.non_singlet.single_log[nf={nf}]", ns_l[1], nsp_ - nsp1_, fn="ekore.operator_matrix_elements.unpolarized.space_like.as2:A_qq_ns", replay=rp, ranges=RG, goal="[L^1] A_qq,ns^(2) == gamma_ns+^(1)(nf) - gamma_ns+^(1)(nf+1)")
                     chk.eq(f"C29.rg.order2.non_singlet.double_log[nf={nf}]", ns_l[2], -Q(4, 3) * constants.TR * ns / 2, fn="ekore.operator_matrix_elements.unpolarized.space_like.as2:A_qq_ns", replay=rp, ranges=RG, goal="[L^2] A_qq,ns^(2) == -1/2 * 4/3 T_R * gamma_ns^(0)")
+                    # O(a_s^3) non-singlet through the dispatcher: the L^3 and L^2 coefficients of A_qq,ns^(3) from the same chain rule (commuting case), with the decoupled
+                    # coupling a^(nf) = a' (1 + d11 L a' + (d20 + d21 L + d22 L^2) a'^2) of C16:
+                    #   3 [L^3] == 2 beta0' [L^2]A2 + gamma0 d22,      2 [L^2] == 2 beta0' [L^1]A2 + 2 gamma1_ns-(nf) d11 + gamma0 d21
+                    from eko import couplings as cpl_
+                    cd = cpl_.compute_matching_coeffs_down("POLE", nf)
+                    An3 = omod.A_non_singlet((3, 0), N, nf, L)[2]
+                    ns3 = coeffs_in(T.lift(An3[0, 0]), "L", 4)
+                    g1m = g2.gamma_nsm(N, nf, hc.reset())
+                    want3 = (2 * b0 * ns_l[2] + ns * cd[2, 2]) / 3
+                    want2 = (2 * b0 * ns_l[1] + 2 * g1m * cd[1, 1] + ns * cd[2, 1]) / 2
+                    worst, where = 0.0, None
+                    for Nv in (Q(5, 2), Q(17, 5), Q(4), Q(27, 5), Q(71, 10), Q(8)):        # even and non-integer moments (the continuation eta = -1 matters there)
+                        for lab_, got_, exp_ in (("L^3", ns3[3], want3), ("L^2", ns3[2], want2)):
+                            x = complex(T.evalmp(T.lift(got_), {"N": Nv}, 40))
+                            y = complex(T.evalmp(T.lift(exp_), {"N": Nv}, 40))
+                            dev = abs(x - y) / max(1.0, abs(y))
+                            if dev > worst:
+                                worst, where = dev, (float(Nv), lab_, x, y)
+                    chk.ground(f"C29.rg.order3.non_singlet.higher_logs[nf={nf}]", worst <= 1e-6, fn="ekore.operator_matrix_elements.unpolarized.space_like:A_non_singlet", replay=rp, backend="exact-eval+mpmath",
+                               goal="[L^3] and [L^2] of A_qq,ns^(3) equal the RG values built from beta0(nf+1), gamma_ns^(0), gamma_ns-^(1)(nf), the O(a_s^2) logs and the decoupling coefficients, at 6 sample moments to 1e-6 (the NLO ingredients contain approximated Mellin transforms: observed 6e-8)",
+                               detail=f"largest relative deviation {worst:.2e} at (N, coefficient, code, RG) = {where}")
                     chk.eq_array(f"C29.rg.order2.double_logs[nf={nf}]", l2[sel2], spec[sel2], fn="ekore.operator_matrix_elements.unpolarized.space_like.as2:A_singlet", replay=rp, ranges=RG,
                                  goal="[L^2] A2 == 1/2 (A1' gamma0_emb - gamma0' A1' + beta0' A1' - 4/3 T_R gamma0_emb), gluon and light-quark columns")
     finally:
